@@ -106,6 +106,33 @@ func checkC14(p *Program, r *Report) {
 			gcsBuildRefusals(p, r, "C14.range", gf, pp)
 		}
 	}
+	// mutation sweep (`p > 32` → `p >= 32` in the fluent builder): SetP / SetM refuse — by storing an error in the builder —
+	// only outside 0..32 resp. 0..2^32−1
+	for _, e := range []struct {
+		name string
+		hi   int64
+		what string
+	}{{"(*GCSBuilder).SetP", 32, "0..32"}, {"(*GCSBuilder).SetM", 1<<32 - 1, "0..2^32-1"}} {
+		sf := p.Func("gcs/builder", e.name)
+		if sf == nil || len(sf.Params) < 2 {
+			r.Unresolved("C14.range", "builder."+e.name)
+			continue
+		}
+		rej := map[*ssa.BasicBlock]bool{}
+		for _, b := range sf.Blocks {
+			for _, in := range b.Instrs {
+				if st, ok := in.(*ssa.Store); ok && isErrorValue(st.Val) {
+					if _, isF := st.Addr.(*ssa.FieldAddr); isF {
+						rej[b] = true
+					}
+				}
+			}
+		}
+		pv := ssa.Value(sf.Params[1])
+		if refusalsOutsideRej(p, r, "C14.range", sf, rej, func(v ssa.Value) bool { return v == pv }, func(lc *LinCtx) (Lin, bool) { return lc.Lin(pv), true }, 0, e.hi, e.what) == 0 {
+			r.Unresolved("C14.range", "refusal of builder."+e.name+" that stores an error in the builder")
+		}
+	}
 	r.Floor("C14.range", 2)
 	// round 6 (systematic): no unguarded mutable package-level state behind this property's functions (§2.9)
 	sharedStateRule(p, r, NewEffects(p), "C14.shared", []string{"gcs/gcs.go", "gcs/builder/builder.go"})
@@ -115,7 +142,7 @@ func checkC14(p *Program, r *Report) {
 		"the rest to FromBytes. C14.content: the block-filter function adds spent outpoints only for non-coinbase transactions and output scripts only when " +
 		"non-empty, through a map keyed by the entry bytes (de-duplication). C14.hash: filter hash = SHA256d(NBytes), header = SHA256d(filter hash ‖ previous " +
 		"header). C14.latch: every chain method of the builder tests the error latch first and returns the builder untouched on error; P > 32 and M > 2^32−1 " +
-		"set the latch. C14.mulhi: the range reduction is recognised as the schoolbook 32×32 high-word product ⌊v·N / 2^64⌋ (any other algorithm is reported as undecided). " +
+		"set the latch. C14.mulhi: the range reduction is PROVED equal to ⌊v·(nHi·2^32+nLo) / 2^64⌋ by exact polynomial normalisation over 32-bit digits and floor terms, with every 64-bit addition and multiplication shown not to wrap (c14algebra.go; limb code the normaliser cannot handle is reported as undecided; math/bits.Mul64 is accepted as such). " +
 		"Not decided: the Golomb–Rice bit stream (value level)."
 	r.Trusted = []string{"wire.WriteVarInt/ReadVarInt = CompactSize", "chainhash.DoubleHashH", "BIP158-style constants stated in the property"}
 	bp := p.Pkg("gcs/builder")
@@ -710,9 +737,9 @@ func derefTypeOrSelf(t types.Type) types.Type {
 	return t
 }
 
-// c14mulhi recognises the range-reduction function as the high 64 bits of the
-// 128-bit product v·N computed from 32-bit halves (schoolbook form), or as
-// math/bits.Mul64.  Another algorithm is reported as undecided.
+// c14mulhi proves that the range-reduction function returns the high 64 bits of the
+// 128-bit product v·N (exact normalisation of its limb arithmetic, c14algebra.go), or
+// accepts math/bits.Mul64.  Code the normaliser cannot handle is reported as undecided.
 func c14mulhi(p *Program, r *Report) {
 	build := p.Func("gcs", "BuildGCSFilter")
 	if build == nil {
@@ -746,36 +773,28 @@ func c14mulhi(p *Program, r *Report) {
 		return
 	}
 	tb := NewTermBuilder(p, red)
-	got := tb.Term(rets[0].Results[0]).String()
-	// reference: with vhi = v/2^32, vlo = v mod 2^32:
-	//   vhi·nHi + (vhi·nLo)/2^32 + (nHi·vlo)/2^32 + ((vhi·nLo mod 2^32) + (nHi·vlo mod 2^32) + (vlo·nLo)/2^32)/2^32
-	vhi, vlo := "/(P0,#4294967296)", "nar32(P0)"
-	mid1, mid2, lo := "*("+vhi+",P2)", "*("+vlo+",P1)", "*("+vlo+",P2)"
-	_ = lo
-	hasAll := func(s string, parts ...string) bool {
-		for _, q := range parts {
-			if !strings.Contains(s, q) {
-				return false
-			}
-		}
-		return true
-	}
-	// structural requirements (order-insensitive thanks to the canonical sort of + and *)
-	okShape := strings.HasPrefix(got, "+(") &&
-		hasAll(got, "*(/(P0,#4294967296),P1)", // vhi·nHi
-			"/(*(/(P0,#4294967296),P2),#4294967296)", // (vhi·nLo) >> 32
-			"nar32(*(/(P0,#4294967296),P2))",         // low half of vhi·nLo in the carry
-			"nar32(P0)")
-	// the carry: (lo32(mid1) + lo32(mid2) + (vlo·nLo >> 32)) >> 32 — the two low halves are narrowed separately
-	carryOK := strings.Contains(got, "/(+(") && strings.Count(got, "nar32(*(") >= 2
-	_ = mid1
-	_ = mid2
-	usesMul64 := strings.Contains(got, "math/bits.Mul64")
-	if !okShape && !usesMul64 {
-		r.Undecided("C14.mulhi", FnName(red), "reduction is ⌊v·N / 2^64⌋", red.Pos(), "unrecognised multiplication algorithm: "+got)
+	term := tb.Term(rets[0].Results[0]).String()
+	if strings.Contains(term, "math/bits.Mul64") {
+		r.Add("C14.mulhi", FnName(red), "reduction is the high 64 bits of v·N", red.Pos(), strings.HasPrefix(term, "ext0(") || strings.Contains(term, "Mul64"), term)
+		r.Floor("C14.mulhi", 1)
 		return
 	}
-	r.Add("C14.mulhi", FnName(red), "reduction is the high 64 bits of v·N with the carry of the two middle products' low halves", red.Pos(), usesMul64 || carryOK, got)
+	if len(red.Params) != 3 {
+		r.Undecided("C14.mulhi", FnName(red), "reduction is ⌊v·N / 2^64⌋", red.Pos(), "unrecognised signature (expected hash, high half, low half): "+term)
+		return
+	}
+	// exact-arithmetic proof (c14algebra.go): the result and ⌊v·(nHi·2^32+nLo)/2^64⌋ normalise to the same polynomial over
+	// 32-bit digits and floor atoms.  nHi, nLo < 2^32 is C13.pipeline's call-site clause (both halves of one modulus field).
+	ok, got, want, err := mulhiProof(red, rets[0].Results[0])
+	if err != nil {
+		r.Undecided("C14.mulhi", FnName(red), "reduction is ⌊v·N / 2^64⌋", red.Pos(), "the limb arithmetic could not be normalised: "+err.Error())
+		return
+	}
+	how := "normal form of the result: " + got
+	if !ok {
+		how += "; normal form of ⌊v·N / 2^64⌋: " + want
+	}
+	r.Add("C14.mulhi", FnName(red), "reduction equals ⌊v·(nHi·2^32+nLo) / 2^64⌋ as an identity over 32-bit digits (no intermediate wraps)", red.Pos(), ok, how)
 	r.Floor("C14.mulhi", 1)
 }
 
